@@ -135,6 +135,7 @@ def check_case(ops, impls, sig_prefix="", raft=False):
     txs = {}
     layer = "?"
     win_pre = None     # inside a commit window after the underlying commit: the store just before it
+    rkey, rparked = None, None
 
     def fail(what, sig, **kw):
         d = {"what": what, "signature": sig_prefix + sig}
@@ -168,8 +169,32 @@ def check_case(ops, impls, sig_prefix="", raft=False):
                     else:
                         store[k] = v[2:]
             continue
-        if op == "cstart":
-            continue        # the commit window of the cache layer opens (see `cunder`, `hget`)
+        if op in ("cstart", "stripes", "purge", "cwait"):
+            # cstart: the commit window of the cache layer opens (see `cunder`, `hget`, `rstart`); stripes: lock stripe
+            # of every key; purge: the parent cache was emptied; cwait: whether Commit had returned while a reader was
+            # parked inside cache.Get (compared with the micro-step model only)
+            continue
+        if op in ("rstart", "rrelease"):
+            # a concurrent plain reader in its own goroutine, parked by the hook right after the storage read
+            kind, _, val = impl.partition(":")
+            if op == "rstart":
+                rkey, rparked = f[1], (val if kind == "parked" else None)
+                if kind not in ("parked", "ret"):
+                    fail("reader start ended in %s" % impl, "unexpected-" + impl.replace(":", "-"))
+                    continue
+            else:
+                if kind != "ret":
+                    fail("released reader ended in %s" % impl, "unexpected-" + impl.replace(":", "-"))
+                    continue
+                if rparked is not None and val != rparked:
+                    fail("the parked reader returned %s, the storage read had returned %s" % (val, rparked), "reader-result-changed")
+            ok_vals = {show_val(store.get(rkey))}
+            if win_pre is not None:
+                ok_vals.add(show_val(win_pre.get(rkey)))
+            if val not in ok_vals:
+                fail("reader inside the commit window got %s for %s, neither the pre- nor the post-commit value %r"
+                     % (val, rkey, sorted(ok_vals)), "window-read-neither-old-nor-new")
+            continue
         if op == "hget":
             # a concurrent plain reader inside a commit window. The commit call has been invoked and has not
             # returned: the read may be ordered before or after it, so it must return the value of the store just
@@ -309,7 +334,7 @@ class TxnStream(Stream):
         return Stream.predicate(self, op, impl)
 
     def nontrivial(self, op, impl):
-        return op.split("\t", 1)[0] not in ("layer", "dump", "cstart") and impl not in ("bad-op",)
+        return op.split("\t", 1)[0] not in ("layer", "dump", "cstart", "stripes", "purge") and impl not in ("bad-op",)
 
 
 class InmemTxn(TxnStream):
@@ -326,7 +351,10 @@ class InmemTxn(TxnStream):
             "a COMMIT WINDOW: a hook wrapper between inmem and the cache calls back at the start of the underlying Commit and "
             "right after it returned, where 0-3 concurrent plain cache.Get (70% keys of the write set) run; after such a "
             "commit every key is read through the cache and directly from the backend (cohere); the driver replays the "
-            "observed hook-point reads on the micro-step model; non-trivial = every line except layer/dump/cstart; "
+            "observed hook-point reads on the micro-step model; up to 150 (thorough 4000) commits run as a LOCK window: a plain "
+            "cache.Get in its own goroutine is parked by the hook below the cache right after its storage read (inside cache.Get, "
+            "holding the stripe read lock) while another goroutine runs Commit; the observed order rstart/cunder/cwait(blocked "
+            "after a quiet period | returned)/rrelease/commit is replayed on the lock-granular model; non-trivial = every line except layer/dump/cstart; "
             "distinct = distinct op line")
 
 
@@ -360,9 +388,11 @@ class C08(PropCheck):
                   "inmem_serializable (induction over every schedule), txn_sees_snapshot_plus_own_writes, txn_result_is_logged, "
                   "reads_own_writes, readonly_refuses_writes, finished_refuses_use - all full. cache layer (model CacheTxn): "
                   "cache_layer_transparent full (parent and per-transaction caches coherent with the layer below after every "
-                  "schedule); cache_commit_window_coherent full (Commit split into underlying commit + one eviction per modified key, "
-                  "any interleaving of concurrent plain readers between the micro-steps, any number of such windows in any "
-                  "schedule: coherent once each commit returned), cache_commit_window_refines_atomic, "
+                  "schedule); cache_commit_window_coherent full at LOCK granularity (reader Get = acquire stripe read lock, LRU lookup, "
+                  "backend read, lru.Add, release; eviction = acquire stripe write lock - blocked while a reader holds it -, "
+                  "remove, release; every stripe assignment, any number of readers, every interleaving, any number of windows "
+                  "in any schedule), cache_commit_window_quiescent, cache_commit_lockfree_cex (model variant without the "
+                  "eviction lock leaves a stale entry), cache_commit_window_coherent_atomic_reader, cache_commit_window_refines_atomic, "
                   "cache_commit_reversed_order_cex (model variant evict-then-commit leaves a stale entry); cache_finished_get_cex (F22). raft client-side verification records and single-node commit (model "
                   "RaftTxn): raft_verify_sound (read records cover every touched key and pin its content hash), "
                   "raft_commit_reads_current (every committed writer's reads are current, through the fast-path bypass, FSM not "
